@@ -13,7 +13,7 @@ import json
 from pathlib import Path
 from typing import Dict, List, Optional, Set, Tuple
 
-from ..cfg import BASE, CFG, EXC, reaching_defs
+from ..cfg import BASE, CFG, EXC
 from ..engine import (
     AnalysisError,
     FuncNode,
@@ -42,8 +42,441 @@ GRAPH = "semantiva/pipeline/graph_builder.py"
 SCHEMA_DIR = "semantiva/trace/schema"
 
 
+# ---------------------------------------------------------------------------
+# the function under analysis and the values of its locals
+# ---------------------------------------------------------------------------
+
+# constructs the rules look for by role; a private helper that contains one of them is inlined into the
+# normal form of execute (code moved across a function boundary stays visible), every other helper stays a call
+ROLE_CALLS = set(_orch.DRIVER_METHODS) | {"_make_ser_record", "_submit_and_wait", "_publish", "_instantiate_nodes", "compute_upstream_map", "compute_pipeline_id"}
+KNOWN_HELPERS = {"_make_ser_record", "_submit_and_wait", "_publish", "_instantiate_nodes", "_resolve_params_with_sources"}
+
+
+def _execute_normal_form(repo: Repo) -> ast.FunctionDef:
+    cached = repo.__dict__.get("_c06_execute_nf")
+    if cached is not None:
+        return cached
+    mod = repo.module(ORCH)
+    raw = repo.func(ORCH, EXECUTE)
+    private = {q.split(".")[-1]: f for q, f in mod.defs.items() if isinstance(f, FuncNode) and q.split(".")[-1].startswith("_") and not q.split(".")[-1].startswith("__") and f is not raw}
+    relevant: Set[str] = set()
+    changed = True
+    while changed:
+        changed = False
+        for name, f in private.items():
+            if name in relevant or name in KNOWN_HELPERS:
+                continue
+            if any(call_attr(c) in ROLE_CALLS or call_attr(c) in relevant for c in calls_in(f)):
+                relevant.add(name)
+                changed = True
+    keep = tuple(sorted((set(private) - relevant) | KNOWN_HELPERS))
+    nf = nfunc(repo, ORCH, EXECUTE, keep=keep)
+    hidden = sorted({call_attr(c) for c in calls_in(nf) if call_attr(c) in relevant})
+    if hidden:
+        raise AnalysisError(f"execute(): helper(s) {hidden} take part in the trace lifecycle but could not be inlined into the normal form")
+    repo.__dict__["_c06_execute_nf"] = nf
+    return nf
+
+
+def _trace_tainted(fn: ast.FunctionDef) -> Set[str]:
+    """Locals whose value is derived from the trace parameter (nullness-propagating forms only); plain and
+    annotated assignments."""
+    tainted = {_orch.trace_param(fn)}
+    changed = True
+    while changed:
+        changed = False
+        for n in walk_no_nested(fn):
+            tgt = None
+            if isinstance(n, ast.Assign) and len(n.targets) == 1 and isinstance(n.targets[0], ast.Name):
+                tgt = n.targets[0].id
+            elif isinstance(n, ast.AnnAssign) and isinstance(n.target, ast.Name) and n.value is not None:
+                tgt = n.target.id
+            if tgt is None or tgt in tainted:
+                continue
+            v = n.value
+            names = {x.id for x in ast.walk(v) if isinstance(x, ast.Name)}
+            if not names & tainted:
+                continue
+            ok = isinstance(v, (ast.BoolOp, ast.Compare, ast.Name)) or (isinstance(v, ast.Call) and call_attr(v) == "cast") or (
+                isinstance(v, ast.IfExp) and {x.id for x in ast.walk(v.test) if isinstance(x, ast.Name)} <= tainted)
+            if ok:
+                tainted.add(tgt)
+                changed = True
+    return tainted
+
+
+def _driver_vars(fn: ast.FunctionDef, tainted: Set[str]) -> Set[str]:
+    return {c.func.value.id for c in calls_in(fn)
+            if isinstance(c.func, ast.Attribute) and c.func.attr in _orch.DRIVER_METHODS and isinstance(c.func.value, ast.Name) and c.func.value.id in tainted}
+
+
+LIST_MUTATORS = {"append", "extend", "insert", "pop", "remove", "clear", "sort", "reverse", "__setitem__", "__delitem__", "__iadd__"}
+
+
+class _SubstFree(ast.NodeTransformer):
+    """Replace loads of function locals (not names bound by an enclosing comprehension / lambda)."""
+
+    def __init__(self, mapping: Dict[str, ast.AST]):
+        self.mapping = mapping
+        self.hidden: List[Set[str]] = []
+
+    def visit_Name(self, node: ast.Name):
+        if isinstance(node.ctx, ast.Load) and node.id in self.mapping and not any(node.id in h for h in self.hidden):
+            return clone(self.mapping[node.id])
+        return node
+
+    def _comp(self, node):
+        self.hidden.append(_comp_targets(node))
+        self.generic_visit(node)
+        self.hidden.pop()
+        return node
+
+    visit_ListComp = visit_SetComp = visit_GeneratorExp = visit_DictComp = _comp
+
+    def visit_Lambda(self, node):
+        return node
+
+
+class _Vals:
+    """What a local holds at a program point, by reaching definitions on the CFG of the function (built under
+    *trace is present*, so definitions on the folded-away branches do not count).
+
+    ``resolve(expr, uses)`` gives the alternatives of *expr* with every local replaced by the (pure) value bound to
+    it; a local bound to something that must not be re-evaluated (a call, a fresh container, a loop target, an
+    unpacked element) stays a name of the form ``<name>@<defining CFG node>[.<path>]`` - two expressions denote the
+    same object when they resolve to the same such name.  ``typing.cast`` is transparent and conditional
+    expressions whose test is decided by *trace is present* are folded."""
+
+    def __init__(self, g: CFG, fn: ast.AST, fold=None):
+        from ..normal import _purity
+        self._purity = _purity
+        self.g, self.fn = g, fn
+        self.fold = fold or (lambda t: None)
+        self.params = _param_names(fn)
+        self.locals = _local_names(fn)
+        self.info: Dict[str, Tuple[object, str, Optional[ast.AST], Tuple[int, ...]]] = {}
+        self.seen_at: Dict[str, Set[Tuple[int, ...]]] = {}
+        self._defs: Dict[Tuple[str, int], list] = {}
+        self._def_index: Optional[Dict[str, Set[int]]] = None
+
+    # -- program points ---------------------------------------------------------------------------------
+    def uses(self, node: ast.AST) -> List[int]:
+        ids = self.g.nodes_for(stmt_of(node))
+        if not ids:
+            raise AnalysisError(f"execute(): `{norm(node)[:60]}` is not on the control-flow graph (unreachable under *trace is present*?)")
+        return ids
+
+    def defs(self, name: str, uses) -> list:
+        out = {}
+        for u in uses:
+            key = (name, u)
+            if key not in self._defs:
+                self._defs[key] = self._reaching(name, u)
+            for d in self._defs[key]:
+                out[d.id] = d
+        return [out[k] for k in sorted(out)]
+
+    def _reaching(self, name: str, use: int) -> list:
+        """Definitions of *name* that reach CFG node *use* with no other definition in between (a statement that
+        raised has not bound its target: exception edges out of the defining node do not carry the definition)."""
+        g = self.g
+        dn = self._def_nodes(name)
+        out = []
+        for d in sorted(dn):
+            stop = dn - {d, use}
+            starts = [t for t, lab in g.succ[d] if lab not in (EXC, BASE) and t not in stop]
+            if use in starts or use in g.reach(starts, blocked=stop):
+                out.append(g.nodes[d])
+        return out
+
+    def _def_nodes(self, name: str) -> Set[int]:
+        if self._def_index is None:
+            self._def_index = {}
+            for n in self.g.nodes:
+                for nm in _node_defs(n)[0]:
+                    self._def_index.setdefault(nm, set()).add(n.id)
+        return set(self._def_index.get(name, ()))
+
+    @staticmethod
+    def _path_in(target: ast.AST, name: str) -> Optional[Tuple[int, ...]]:
+        if isinstance(target, ast.Name):
+            return () if target.id == name else None
+        if isinstance(target, ast.Starred):
+            return None
+        if isinstance(target, (ast.Tuple, ast.List)):
+            for i, el in enumerate(target.elts):
+                p = _Vals._path_in(el, name)
+                if p is not None:
+                    return (i,) + p
+        return None
+
+    def def_value(self, d, name: str) -> Tuple[str, Optional[ast.AST], Tuple[int, ...]]:
+        """('value', expr, ()) plain binding; ('elem', expr, path) element of an unpacked value;
+        ('iter', iterable, path) loop target; ('opaque', None, ())."""
+        a = d.ast
+        if d.kind == "stmt" and isinstance(a, (ast.Assign, ast.AnnAssign)) and a.value is not None:
+            for t in (a.targets if isinstance(a, ast.Assign) else [a.target]):
+                path = self._path_in(t, name)
+                if path is None:
+                    continue
+                v = a.value
+                rest = path
+                while rest and isinstance(v, (ast.Tuple, ast.List)) and rest[0] < len(v.elts) and not any(isinstance(x, ast.Starred) for x in v.elts):
+                    v, rest = v.elts[rest[0]], rest[1:]
+                return ("value", v, ()) if not rest else ("elem", v, rest)
+        if d.kind == "for" and isinstance(a, ast.For):
+            path = self._path_in(a.target, name)
+            if path is not None:
+                return "iter", a.iter, path
+        return "opaque", None, ()
+
+    # -- values -------------------------------------------------------------------------------------------
+    def _simplify(self, e: ast.AST) -> ast.AST:
+        outer = self
+
+        class S(ast.NodeTransformer):
+            def visit_IfExp(self, node):
+                f = outer.fold(node.test)
+                if f is True:
+                    return self.visit(node.body)
+                if f is False:
+                    return self.visit(node.orelse)
+                return self.generic_visit(node)
+
+            def visit_Call(self, node):
+                if call_attr(node) == "cast" and len(node.args) == 2 and not node.keywords:
+                    return self.visit(node.args[1])
+                return self.generic_visit(node)
+
+            def visit_Lambda(self, node):
+                return node
+
+        return S().visit(clone(e))
+
+    def resolve(self, e: ast.AST, uses, depth: int = 0) -> List[ast.AST]:
+        e = self._simplify(e)
+        names: List[str] = []
+        for n in _loads(e):
+            if n.id in self.locals and n.id not in names and "@" not in n.id:
+                names.append(n.id)
+        alts: List[Dict[str, ast.AST]] = [{}]
+        for nm in names:
+            vals = self._name(nm, uses, depth)
+            alts = [dict(a, **{nm: v}) for a in alts for v in vals][:24]
+        out, seen = [], set()
+        for a in alts:
+            r = _SubstFree(a).visit(clone(e)) if a else e
+            k = ast.dump(r)
+            if k not in seen:
+                seen.add(k)
+                out.append(r)
+        return out
+
+    def _name(self, nm: str, uses, depth: int) -> List[ast.AST]:
+        uses = list(uses)
+        ds = self.defs(nm, uses)
+        alts: List[ast.AST] = []
+        if nm in self.params:
+            seen = self.g.reach([self.g.entry], blocked=self._def_nodes(nm) - set(uses))
+            if any(u in seen for u in uses):
+                alts.append(ast.Name(id=f"{nm}@param", ctx=ast.Load()))
+        if not ds and not alts:
+            return [ast.Name(id=nm, ctx=ast.Load())]
+        for d in ds:
+            kind, v, path = self.def_value(d, nm)
+            if kind == "value" and depth < 10:
+                sv = self._simplify(v)
+                if isinstance(sv, ast.Name) or self._purity(sv) in ("safe", "pure"):
+                    alts.extend(self.resolve(sv, [d.id], depth + 1))
+                    continue
+            tag = f"{nm}@{d.id}" + "".join(f".{i}" for i in path)
+            self.info[tag] = (d, kind, v, path)
+            self.seen_at.setdefault(tag, set()).add(tuple(sorted(uses)))
+            alts.append(ast.Name(id=tag, ctx=ast.Load()))
+        out, seen_k = [], set()
+        for a in alts:
+            k = ast.dump(a)
+            if k not in seen_k:
+                seen_k.add(k)
+                out.append(a)
+        return out
+
+    def at(self, e: ast.AST) -> List[ast.AST]:
+        """Alternatives of *e* evaluated where it is written."""
+        return self.resolve(e, self.uses(e))
+
+    def binding(self, e: ast.AST) -> ast.AST:
+        """The expression a ``name@node`` stands for (one level), else *e* itself."""
+        if isinstance(e, ast.Name) and e.id in self.info and self.info[e.id][1] == "value":
+            return self.info[e.id][2]
+        return e
+
+    def binding_site(self, e: ast.AST) -> Optional[List[int]]:
+        if isinstance(e, ast.Name) and e.id in self.info:
+            return [self.info[e.id][0].id]
+        return None
+
+    def unfold(self, alts: List[ast.AST], rounds: int = 3) -> List[ast.AST]:
+        """Alternatives with a name that stands for a plainly bound value (``x@node`` for ``x = <expr>``) replaced
+        by that expression as evaluated where it was bound - for recognising the *shape* of a value that was given
+        a name; identity questions are asked on the folded form."""
+        out = list(alts)
+        for _ in range(rounds):
+            nxt: List[ast.AST] = []
+            changed = False
+            for a in out:
+                if isinstance(a, ast.Name) and a.id in self.info and self.info[a.id][1] == "value" and self.info[a.id][2] is not None:
+                    nxt.extend(self.resolve(self.info[a.id][2], [self.info[a.id][0].id]))
+                    changed = True
+                else:
+                    nxt.append(a)
+            out = nxt
+            if not changed:
+                break
+        return out
+
+    @staticmethod
+    def keyset(alts: List[ast.AST]) -> Set[str]:
+        return {ast.dump(a) for a in alts}
+
+    # -- ordered list contents -----------------------------------------------------------------------------
+    def _mutations(self, name: str) -> List[ast.stmt]:
+        out = []
+        for n in self.g.nodes:
+            a = n.ast
+            if a is None or n.kind != "stmt" or a in out:
+                continue
+            hit = False
+            for x in walk_no_nested(a):
+                if isinstance(x, ast.Call) and isinstance(x.func, ast.Attribute) and x.func.attr in LIST_MUTATORS and isinstance(x.func.value, ast.Name) and x.func.value.id == name:
+                    hit = True
+                elif isinstance(x, ast.Subscript) and isinstance(x.ctx, (ast.Store, ast.Del)) and isinstance(x.value, ast.Name) and x.value.id == name:
+                    hit = True
+                elif isinstance(x, ast.AugAssign) and isinstance(x.target, ast.Name) and x.target.id == name:
+                    hit = True
+            if hit:
+                out.append(a)
+        return out
+
+    def list_content(self, e: ast.AST) -> Optional[Tuple[ast.AST, str, List[ast.AST]]]:
+        """(element expression, its loop variable as it appears there, alternatives of the iterable) when the list
+        *e* (a ``name@node``) holds exactly ``[element for variable in iterable]`` in iteration order wherever it
+        was read: built by a comprehension and not touched since, or started empty and filled by the one
+        unconditional ``append`` of a loop that runs to completion before the read."""
+        if not (isinstance(e, ast.Name) and e.id in self.info):
+            return None
+        d, kind, v, _path = self.info[e.id]
+        if kind != "value" or v is None:
+            return None
+        name = e.id.split("@")[0]
+        results = []
+        for uses in sorted(self.seen_at.get(e.id, ())):
+            r = self._list_content_at(name, d, v, list(uses))
+            if r is None:
+                return None
+            results.append(r)
+        if not results or len({(ast.dump(r[0]), r[1], tuple(sorted(self.keyset(r[2])))) for r in results}) != 1:
+            return None
+        return results[0]
+
+    def _list_content_at(self, name: str, d, v: ast.AST, uses: List[int]):
+        g = self.g
+        other_defs = self._def_nodes(name) - {d.id}
+        stop_d = other_defs - set(uses)
+        after_d = g.reach([t for t, lab in g.succ[d.id] if lab not in (EXC, BASE) and t not in stop_d], blocked=stop_d)
+        muts = []
+        for m in self._mutations(name):
+            ids = [i for i in g.nodes_for(m) if i in after_d]
+            if ids and any(u in g.reach(ids, blocked=other_defs - set(uses)) or u in ids for u in uses):
+                muts.append(m)
+        comp = v
+        if isinstance(v, ast.Call) and call_name(v) in ("list", "tuple") and len(v.args) == 1 and not v.keywords and isinstance(v.args[0], (ast.GeneratorExp, ast.ListComp)):
+            comp = v.args[0]
+        if isinstance(comp, (ast.ListComp, ast.GeneratorExp)) and not isinstance(v, ast.GeneratorExp):
+            gens = comp.generators
+            if muts or len(gens) != 1 or gens[0].ifs or gens[0].is_async or not isinstance(gens[0].target, ast.Name):
+                return None
+            var = gens[0].target.id
+            elts = self.resolve(comp.elt, [d.id])
+            elts = [x for x in elts]
+            if len(elts) != 1:
+                return None
+            return elts[0], var, self.resolve(gens[0].iter, [d.id])
+        empty = (isinstance(v, ast.List) and not v.elts) or (isinstance(v, ast.Call) and call_name(v) == "list" and not v.args and not v.keywords)
+        if not empty or len(muts) != 1:
+            return None
+        m = muts[0]
+        from ..engine import parent
+        loop = parent(m)
+        call = m.value if isinstance(m, ast.Expr) else None
+        if not (isinstance(loop, ast.For) and m in loop.body and not loop.orelse and isinstance(loop.target, ast.Name) and isinstance(call, ast.Call)
+                and call_attr(call) == "append" and len(call.args) == 1 and not call.keywords):
+            return None
+        if any(isinstance(x, (ast.Break, ast.Return)) for st in loop.body for x in walk_no_nested(st)):
+            return None
+        if any(isinstance(a, (ast.For, ast.While, ast.AsyncFor)) for a in _up_to(loop, self.fn)):
+            return None
+        heads = g.nodes_for(loop)
+        if len(heads) != 1:
+            return None
+        head = heads[0]
+        inside = {id(x) for st in loop.body for x in ast.walk(st)}
+        inside_nodes = {n.id for n in g.nodes if n.ast is not None and id(n.ast) in inside} | {head}
+        if any(u in inside_nodes for u in uses):
+            return None
+        # the loop stands between the empty list and the read on every path
+        stop = {head} | (other_defs - set(uses))
+        around = g.reach([t for t, _l in g.succ[d.id] if t not in stop], blocked=stop)
+        if any(u in around for u in uses):
+            return None
+        # one append per iteration, whatever path the body takes
+        m_ids = set(g.nodes_for(m))
+        saved = g.succ[head]
+        starts = [t for t, lab in saved if lab == "T"]
+        g.succ[head] = []
+        try:
+            cnt = g.counts(starts, lambda n: n.id in m_ids, count_start=True)
+        finally:
+            g.succ[head] = saved
+        if cnt.get(head) != {1}:
+            return None
+        # an exception that leaves the loop half-way never reaches the read
+        escapes = [t for i in inside_nodes for t, lab in g.succ[i] if lab in (EXC, BASE) and t not in inside_nodes]
+        if escapes:
+            seen = g.reach(escapes)
+            if any(u in seen for u in uses):
+                return None
+        elts = self.resolve(call.args[0], sorted(m_ids))
+        if len(elts) != 1:
+            return None
+        return elts[0], f"{loop.target.id}@{head}", self.resolve(loop.iter, [head])
+
+
+class _Exec:
+    """execute() in normal form, its CFG under *trace is present* and the values of its locals."""
+
+    def __init__(self, repo: Repo):
+        self.fn = _execute_normal_form(repo)
+        self.tainted = _trace_tainted(self.fn)
+        self.drivers = _driver_vars(self.fn, self.tainted)
+        if not self.drivers:
+            raise AnalysisError("execute(): no trace driver calls found")
+        self.fold = _orch.make_fold(self.tainted)
+        self.g = CFG(self.fn, fold=self.fold, may_raise=_orch.full_may_raise(self.drivers, {"Payload"}))
+        self.V = _Vals(self.g, self.fn, self.fold)
+
+
+def _exec(repo: Repo) -> _Exec:
+    x = repo.__dict__.get("_c06_exec")
+    if x is None:
+        x = repo.__dict__["_c06_exec"] = _Exec(repo)
+    return x
+
+
+
 def run(repo: Repo, R: Report) -> None:
-    fn = repo.func(ORCH, EXECUTE)
+    X = _exec(repo)
+    fn, V = X.fn, X.V
     R.assume(
         "trace driver methods themselves do not raise (disk faults are outside the quantifier)",
         "asynchronous BaseException delivery between two bytecodes is not modelled: KeyboardInterrupt-class aborts are raised at call sites",
@@ -51,15 +484,11 @@ def run(repo: Repo, R: Report) -> None:
         "for the per-node rule only node execution (_submit_and_wait / node.process), explicit raise statements and _publish are failure points; the orchestrator's own bookkeeping helpers are covered by C10's containment rules",
     )
     R.undecided("schema validity of free-form content (meta, summaries, error text)", "disk faults while writing")
-    tainted = _orch.trace_tainted(fn)
-    drivers = _orch.driver_vars(fn)
-    if not drivers:
-        raise AnalysisError("execute(): no trace driver calls found")
-    fold = _orch.make_fold(tainted)
+    drivers, fold = X.drivers, X.fold
 
     # ------------------------------------------------------------------ D1a pipeline bracket
     r_end = R.rule("C06-D1a-pipeline-bracket", "from the return of on_pipeline_start to every exit of execute (return, Exception-class raise, BaseException-class raise): exactly one on_pipeline_end, with status ok iff the exit is a return, followed by exactly one flush and one close", 6)
-    g = CFG(fn, fold=fold, may_raise=_orch.full_may_raise(drivers, {"Payload"}))
+    g = X.g
     starts_nodes = [n for n in g.nodes if _orch.node_has_driver_call(n, drivers, "on_pipeline_start")]
     if len(starts_nodes) != 1:
         raise AnalysisError(f"execute(): expected one on_pipeline_start site, found {len(starts_nodes)}")
@@ -91,7 +520,7 @@ def run(repo: Repo, R: Report) -> None:
     r_stat = R.rule("C06-D1a-end-status", "pipeline_end says ok exactly on the path that returns; error ends re-raise; end precedes flush precedes close", 2)
     for n in end_nodes:
         call = next(c for c in calls_in(n.ast) if _orch.is_driver_call(c, drivers, "on_pipeline_end"))
-        status = _orch.status_of_end(call)
+        status = _end_status(V, call)
         other_ends = {m.id for m in end_nodes if m.id != n.id}
         seen = g.reach([t for t, _l in g.succ[n.id]], blocked=other_ends)
         if status == "ok":
@@ -138,20 +567,21 @@ def run(repo: Repo, R: Report) -> None:
         R.violation(r_ser, ORCH, EXECUTE, "on_node_event", "no SER is ever emitted", fn.lineno)
 
     def event_status(n) -> Optional[str]:
+        # the record handed to on_node_event, whatever local carries it: its status as given to the SER constructor
         call = next(c for c in calls_in(n.ast) if _orch.is_driver_call(c, drivers, "on_node_event"))
-        arg = call.args[0] if call.args else None
-        if isinstance(arg, ast.Name):
-            # nearest preceding assignment of that name in the same block
-            blk = _enclosing_block(n.ast)
-            idx = blk.index(n.ast) if n.ast in blk else len(blk)
-            for st in reversed(blk[:idx]):
-                if isinstance(st, ast.Assign) and any(isinstance(t, ast.Name) and t.id == arg.id for t in st.targets) and isinstance(st.value, ast.Call):
-                    s = kwarg(st.value, "status")
-                    return s.value if isinstance(s, ast.Constant) else None
-        if isinstance(arg, ast.Call):
-            s = kwarg(arg, "status")
-            return s.value if isinstance(s, ast.Constant) else None
-        return None
+        arg = call.args[0] if call.args else (call.keywords[0].value if call.keywords else None)
+        if arg is None:
+            return None
+        found: Set[Optional[str]] = set()
+        for alt in V.resolve(arg, [n.id]):
+            rec = V.binding(alt)
+            if not (isinstance(rec, ast.Call) and call_attr(rec) == "_make_ser_record"):
+                return None
+            s_ = kwarg(rec, "status")
+            site = V.binding_site(alt) or [n.id]
+            vals = V.resolve(s_, site) if s_ is not None else []
+            found |= {v.value if isinstance(v, ast.Constant) else None for v in vals} or {None}
+        return found.pop() if len(found) == 1 else None
 
     by_status: Dict[str, List] = {}
     for n in event_nodes:
@@ -216,91 +646,219 @@ def run(repo: Repo, R: Report) -> None:
     # ------------------------------------------------------------------ D3 ids, order, edges
     r_ids = R.rule("C06-D3-ids-order-edges", "all records of a run carry the run/pipeline id given to pipeline_start; SER node ids follow canonical order; upstream lists are the canonical edges inverted", 6)
     start_call = next(c for c in calls_in(sn.ast) if _orch.is_driver_call(c, drivers, "on_pipeline_start"))
-    pid_var = dotted_name(start_call.args[0]) if start_call.args else None
-    rid_var = dotted_name(start_call.args[1]) if len(start_call.args) > 1 else None
+    start_args = _bind_driver_args(repo, "on_pipeline_start", start_call)
+    at_start = [sn.id]
 
-    def derived_from(name: Optional[str], root: Optional[str]) -> bool:
-        if name is None or root is None:
-            return False
-        if name == root:
-            return True
-        vals = assigned_value(fn, name)
-        return bool(vals) and all(root in {x.id for x in ast.walk(v) if isinstance(x, ast.Name)} for v in vals)
+    def start_value(param: str) -> Set[str]:
+        e = start_args.get(param)
+        return V.keyset(V.resolve(e, at_start)) if e is not None else set()
+
+    pid_vals, rid_vals, canon_vals = start_value("#0"), start_value("#1"), start_value("#2")
+    if not (pid_vals and rid_vals and canon_vals):
+        raise AnalysisError("execute(): on_pipeline_start is not given pipeline id, run id and canonical spec")
+
+    def same(e: Optional[ast.AST], uses, want: Set[str]) -> bool:
+        return e is not None and V.keyset(V.resolve(e, uses)) == want
 
     for n in end_nodes:
         call = next(c for c in calls_in(n.ast) if _orch.is_driver_call(c, drivers, "on_pipeline_end"))
-        a0 = dotted_name(call.args[0]) if call.args else None
-        R.check(derived_from(a0, rid_var), r_ids, ORCH, EXECUTE, norm(call)[:80] + " [run id]", "pipeline_end carries a different run id than pipeline_start", n.line)
+        a0 = _bind_driver_args(repo, "on_pipeline_end", call).get("#0")
+        R.check(same(a0, [n.id], rid_vals), r_ids, ORCH, EXECUTE, norm(call)[:80] + " [run id]", "pipeline_end carries a different run id than pipeline_start", n.line)
     ser_calls = [c for c in calls_in(fn) if call_attr(c) == "_make_ser_record"]
     if not ser_calls:
         raise AnalysisError("execute(): _make_ser_record call not found")
-    # roles (not spellings): the canonical spec is what pipeline_start was given; the uuid list is the local
-    # assigned `[n["node_uuid"] for n in <canonical nodes>]`; the upstream map is the local assigned
-    # `compute_upstream_map(<canonical>)`
-    canon_var = dotted_name(start_call.args[2]) if len(start_call.args) > 2 else None
-    uuid_lists: Set[str] = set()
-    uuid_lists_canonical: Set[str] = set()
-    um_names: Set[str] = set()
-    for st in walk_no_nested(fn):
-        if isinstance(st, (ast.Assign, ast.AnnAssign)) and st.value is not None:
-            tgts = st.targets if isinstance(st, ast.Assign) else [st.target]
-            names = [t.id for t in tgts if isinstance(t, ast.Name)]
-            if not names:
-                continue
-            m = pat.match("[_N_['node_uuid'] for _N_ in _IT_]", st.value)
-            if m is not None:
-                uuid_lists.update(names)
-                it = m["_IT_"]
-                m2 = pat.match("_C_.get('nodes', _ANY_)", it) or pat.match("_C_['nodes']", it)
-                if m2 is not None and canon_var is not None and dotted_name(m2["_C_"]) == canon_var:
-                    uuid_lists_canonical.update(names)
-            if isinstance(st.value, ast.Call) and call_attr(st.value) == "compute_upstream_map" and len(st.value.args) == 1 and canon_var is not None and dotted_name(st.value.args[0]) == canon_var:
-                um_names.update(names)
-    loop_idx = loop.target.elts[0].id if isinstance(loop.target, ast.Tuple) and isinstance(loop.target.elts[0], ast.Name) else None
+
+    # roles (not spellings): the canonical spec is what pipeline_start was given; a canonical uuid list holds
+    # `<n>["node_uuid"] for <n> in <canonical>["nodes"]` in order (comprehension or append loop); the upstream map
+    # is `compute_upstream_map(<canonical>)`; the position is the counter of the loop that runs the nodes
+    def is_canonical_nodes(alts: List[ast.AST]) -> bool:
+        cs: Set[str] = set()
+        for it in V.unfold(alts):
+            m2 = pat.match("_C_.get('nodes', _ANY_)", it) or pat.match("_C_.get('nodes')", it) or pat.match("_C_['nodes']", it)
+            if m2 is None:
+                return False
+            cs.add(ast.dump(m2["_C_"]))
+        return bool(cs) and cs == canon_vals
+
+    def is_canonical_uuid_list(e: ast.AST) -> bool:
+        lc = V.list_content(e)
+        if lc is None:
+            return False
+        elt, var, it_alts = lc
+        m = pat.match("_N_['node_uuid']", elt)
+        return m is not None and isinstance(m["_N_"], ast.Name) and m["_N_"].id == var and is_canonical_nodes(it_alts)
+
+    def is_loop_position(e: ast.AST) -> bool:
+        if not (isinstance(e, ast.Name) and e.id in V.info):
+            return False
+        d, kind, it, path = V.info[e.id]
+        if kind != "iter" or d.ast is not loop:
+            return False
+        if isinstance(it, ast.Call) and call_name(it) == "enumerate":
+            start = it.args[1] if len(it.args) > 1 else kwarg(it, "start")
+            return path == (0,) and (start is None or (isinstance(start, ast.Constant) and start.value == 0))
+        return path == () and pat.match("range(len(_ANY_))", it) is not None
+
+    def is_canonical_uuid_at_position(v: ast.AST) -> Optional[bool]:
+        """True: the canonical uuid at the loop position; None: a constant (out-of-range fallback); False: anything else."""
+        if isinstance(v, ast.Constant):
+            return None
+        if isinstance(v, ast.IfExp):
+            arms = [is_canonical_uuid_at_position(v.body), is_canonical_uuid_at_position(v.orelse)]
+            if False in arms or True not in arms:
+                return False
+            return True
+        return isinstance(v, ast.Subscript) and is_loop_position(v.slice) and is_canonical_uuid_list(v.value)
+
+    def is_upstream_map(e: ast.AST) -> bool:
+        site = V.binding_site(e)
+        call = V.binding(e)
+        if not (isinstance(call, ast.Call) and call_attr(call) == "compute_upstream_map" and len(call.args) + len(call.keywords) == 1):
+            return False
+        arg = call.args[0] if call.args else call.keywords[0].value
+        if site is None:
+            return V.keyset([arg]) == canon_vals  # written in place: already resolved
+        return same(arg, site, canon_vals)
+
+    n_uuid_ok = n_up_ok = 0
     for c in ser_calls:
-        R.check(derived_from(dotted_name(kwarg(c, "run_id")), rid_var) and derived_from(dotted_name(kwarg(c, "pipeline_id")), pid_var), r_ids, ORCH, EXECUTE,
-                f"_make_ser_record(status={getattr(kwarg(c, 'status'), 'value', '?')}) ids", "SER identity does not use the run/pipeline ids of pipeline_start", c.lineno)
-        nid = dotted_name(kwarg(c, "node_id"))
+        at_c = V.uses(c)
+        label = _status_label(V, c)
+        R.check(same(kwarg(c, "run_id"), at_c, rid_vals) and same(kwarg(c, "pipeline_id"), at_c, pid_vals), r_ids, ORCH, EXECUTE,
+                f"_make_ser_record(status={label}) ids", "SER identity does not use the run/pipeline ids of pipeline_start", c.lineno)
+        nid = kwarg(c, "node_id")
         up = kwarg(c, "upstream_ids")
-        # node_id = <uuid list>[<loop index>]; upstream = <upstream map>.get(node_id, [])
-        # the definitions of the node id that *reach* this call (an initial value before the loop does not)
-        vals = []
-        if nid:
-            for use in g.nodes_for(stmt_of(c)):
-                for d in reaching_defs(g, nid, use):
-                    v = getattr(d.ast, "value", None) if d.kind == "stmt" else None
-                    vals.append(v if v is not None else ast.Constant(value=None))
-        ok_nid = bool(vals) and all(any(isinstance(s, ast.Subscript) and dotted_name(s.value) in uuid_lists_canonical and dotted_name(s.slice) == loop_idx for s in ast.walk(v)) for v in vals)
-        R.check(ok_nid, r_ids, ORCH, EXECUTE, f"node_id = <canonical uuid list>[<loop index>] ({getattr(kwarg(c, 'status'), 'value', '?')})", "SER node id is not the canonical uuid at the loop position", c.lineno)
-        ok_up = isinstance(up, ast.Call) and call_attr(up) == "get" and isinstance(up.func, ast.Attribute) and dotted_name(up.func.value) in um_names and bool(up.args) and dotted_name(up.args[0]) == nid
-        R.check(ok_up, r_ids, ORCH, EXECUTE, f"upstream_ids = <upstream map>.get(<node id>) ({getattr(kwarg(c, 'status'), 'value', '?')})", "SER upstream list is not looked up from the canonical upstream map for this node", c.lineno)
-    # loop iterates enumerate(nodes) in list order; node_uuids from canonical nodes in order
-    it = loop.iter
-    ok_iter = isinstance(it, ast.Call) and call_attr(it) == "enumerate" and len(it.args) == 1 and isinstance(it.args[0], ast.Name)
+        nid_alts = V.resolve(nid, at_c) if nid is not None else []
+        verdicts = [is_canonical_uuid_at_position(v) for v in nid_alts]
+        ok_nid = bool(verdicts) and False not in verdicts and True in verdicts
+        n_uuid_ok += ok_nid
+        R.check(ok_nid, r_ids, ORCH, EXECUTE, f"node_id = <canonical uuid list>[<loop index>] ({label})", "SER node id is not the canonical uuid at the loop position", c.lineno)
+        # upstream = <upstream map>.get(<node id>[, []])
+        ok_up = False
+        if up is not None and nid_alts:
+            keys: Set[str] = set()
+            ok_up = True
+            for alt in V.unfold(V.resolve(up, at_c)):
+                m = pat.match("_M_.get(_K_, _ANY_)", alt) or pat.match("_M_.get(_K_)", alt) or pat.match("_M_[_K_]", alt)
+                if m is None or not is_upstream_map(m["_M_"]):
+                    ok_up = False
+                    break
+                keys.add(ast.dump(m["_K_"]))
+            ok_up = ok_up and keys == V.keyset(nid_alts)
+        n_up_ok += ok_up
+        R.check(ok_up, r_ids, ORCH, EXECUTE, f"upstream_ids = <upstream map>.get(<node id>) ({label})", "SER upstream list is not looked up from the canonical upstream map for this node", c.lineno)
+    # the loop visits the instantiated nodes in list order
+    it_alts = V.resolve(loop.iter, heads)
+    ok_iter = bool(it_alts) and all(_visits_in_order(V, it) for it in it_alts)
     R.check(ok_iter, r_ids, ORCH, EXECUTE, norm(loop), "nodes are not visited in list order by enumerate()", loop.lineno)
-    R.check(bool(uuid_lists_canonical), r_ids, ORCH, EXECUTE, "node_uuids = [n['node_uuid'] for n in canonical nodes]", "node uuid list is not the canonical node list in order", fn.lineno)
-    R.check(bool(um_names), r_ids, ORCH, EXECUTE, "upstream_map = compute_upstream_map(canonical)", "upstream map is not computed from the canonical spec", fn.lineno)
-    cum = repo.func(GRAPH, "compute_upstream_map")
-    ok = False
-    for n in ast.walk(cum):
-        if isinstance(n, ast.For) and "edges" in ast.unparse(n.iter) and isinstance(n.target, ast.Name):
-            e = n.target.id
-            body = ast.unparse(n)
-            ok = f"{e}['target']" in body and f"append({e}['source'])" in body and not any(isinstance(x, (ast.If, ast.Continue, ast.Break)) for x in ast.walk(n))
-    R.check(ok, r_ids, GRAPH, "compute_upstream_map", "for edge in edges: mapping[edge.target].append(edge.source)", "upstream map does not invert every canonical edge (source -> target) unfiltered", cum.lineno)
-    # instantiation order = spec order
-    inst = repo.func(ORCH, "SemantivaOrchestrator._instantiate_nodes")
-    loops = [n for n in walk_no_nested(inst) if isinstance(n, ast.For)]
-    from ..engine import returned_values
-    returned_lists = {x.id for rv in returned_values(inst) for x in (rv.elts if isinstance(rv, ast.Tuple) else [rv]) if isinstance(x, ast.Name)}
-    ok = len(loops) == 1 and isinstance(loops[0].iter, ast.Name) and loops[0].iter.id == inst.args.args[1].arg and any(call_attr(c) == "append" and isinstance(c.func, ast.Attribute) and dotted_name(c.func.value) in returned_lists for c in calls_in(loops[0]))
-    R.check(ok, r_ids, ORCH, "SemantivaOrchestrator._instantiate_nodes", norm(loops[0]) if loops else "for node_def in pipeline_spec", "nodes are not instantiated by appending in spec order", inst.lineno)
+    R.check(n_uuid_ok == len(ser_calls), r_ids, ORCH, EXECUTE, "node_uuids = [n['node_uuid'] for n in canonical nodes]", "node uuid list is not the canonical node list in order", fn.lineno)
+    R.check(n_up_ok == len(ser_calls), r_ids, ORCH, EXECUTE, "upstream_map = compute_upstream_map(canonical)", "upstream map is not computed from the canonical spec", fn.lineno)
+    _upstream_map_rule(repo, R, r_ids)
+    _instantiation_order_rule(repo, R, r_ids)
 
     # ------------------------------------------------------------------ D2 writer / schema agreement
-    _schema_rules(repo, R)
+    _schema_rules(repo, R, X)
 
     # ------------------------------------------------------------------ D4 one line per record
     _line_rules(repo, R)
+
+
+def _end_status(V: "_Vals", call: ast.Call) -> Optional[str]:
+    """Literal status of an on_pipeline_end(run, {"status": ...}) call; the summary may be a named local and the
+    status a named constant."""
+    uses = V.uses(call)
+    found: Set[Optional[str]] = set()
+    for a in list(call.args) + [k.value for k in call.keywords]:
+        for alt in V.resolve(a, uses):
+            d = V.binding(alt)
+            if not isinstance(d, ast.Dict):
+                continue
+            site = V.binding_site(alt) or uses
+            for k, v in zip(d.keys, d.values):
+                if isinstance(k, ast.Constant) and k.value == "status":
+                    vals = V.resolve(v, site)
+                    found |= {x.value if isinstance(x, ast.Constant) else None for x in vals}
+    return found.pop() if len(found) == 1 else None
+
+
+def _bind_driver_args(repo: Repo, method: str, call: ast.Call) -> Dict[str, ast.AST]:
+    """Arguments of a driver call by the parameter names of the JSONL driver's method (positional or keyword)."""
+    callee = repo.func(JSONL, f"JsonlTraceDriver.{method}")
+    pos = [x.arg for x in callee.args.posonlyargs + callee.args.args][1:]
+    out: Dict[str, ast.AST] = {}
+    for p_, a in zip(pos, call.args):
+        if isinstance(a, ast.Starred):
+            break
+        out[p_] = a
+    for k in call.keywords:
+        if k.arg is not None:
+            out[k.arg] = k.value
+    for i, p_ in enumerate(pos):  # also by position: "#0" is the first parameter after self
+        if p_ in out:
+            out[f"#{i}"] = out[p_]
+    return out
+
+
+def _visits_in_order(V: "_Vals", it: ast.AST) -> bool:
+    """``enumerate(<nodes>)`` / ``range(len(<nodes>))`` over what _instantiate_nodes returned, in list order."""
+    m = pat.match("enumerate(_S_)", it) or pat.match("enumerate(_S_, 0)", it) or pat.match("enumerate(_S_, start=0)", it) or pat.match("range(len(_S_))", it)
+    if m is None:
+        return False
+
+    def instantiated(e: ast.AST) -> bool:
+        if isinstance(e, ast.Call) and call_name(e) in ("list", "tuple") and len(e.args) == 1 and not e.keywords:
+            return instantiated(e.args[0])
+        if isinstance(e, ast.Call) and call_name(e) == "zip" and e.args and not e.keywords:
+            return all(instantiated(a) for a in e.args)
+        if isinstance(e, ast.Name) and e.id in V.info:
+            _d, kind, v, _p = V.info[e.id]
+            return kind in ("elem", "value") and isinstance(v, ast.Call) and call_attr(v) == "_instantiate_nodes"
+        return False
+
+    return instantiated(m["_S_"])
+
+
+def _upstream_map_rule(repo: Repo, R: Report, r_ids) -> None:
+    """compute_upstream_map inverts every canonical edge: one unconditional
+    ``<map>[<edge>.target] ... .append(<edge>.source)`` per edge of ``<spec>["edges"]``, and the map is returned."""
+    cum = repo.func(GRAPH, "compute_upstream_map")
+    nf = nfunc(repo, GRAPH, "compute_upstream_map", copyprop="all")
+    spec = nf.args.args[0].arg if nf.args.args else None
+    returned = {r.value.id for r in walk_no_nested(nf) if isinstance(r, ast.Return) and isinstance(r.value, ast.Name)}
+    ok = False
+    for n in walk_no_nested(nf):
+        if not (isinstance(n, ast.For) and isinstance(n.target, ast.Name) and not n.orelse):
+            continue
+        m_it = pat.match("_S_.get('edges', _ANY_)", n.iter) or pat.match("_S_.get('edges')", n.iter) or pat.match("_S_['edges']", n.iter)
+        if m_it is None or dotted_name(m_it["_S_"]) != spec:
+            continue
+        e = n.target.id
+        body = [st for st in n.body if not isinstance(st, ast.Pass)]
+        hit = None
+        if len(body) == 1:
+            for p_ in (f"_M_.setdefault({e}['target'], []).append({e}['source'])", f"_M_[{e}['target']].append({e}['source'])"):
+                hit = hit or pat.match(p_, body[0].value if isinstance(body[0], ast.Expr) else body[0])
+        ok = hit is not None and dotted_name(hit["_M_"]) in returned
+    R.check(ok, r_ids, GRAPH, "compute_upstream_map", "for edge in edges: mapping[edge.target].append(edge.source)", "upstream map does not invert every canonical edge (source -> target) unfiltered", cum.lineno)
+
+
+def _instantiation_order_rule(repo: Repo, R: Report, r_ids) -> None:
+    from ..engine import returned_values
+    inst = nfunc(repo, ORCH, "SemantivaOrchestrator._instantiate_nodes")
+    loops = [n for n in walk_no_nested(inst) if isinstance(n, ast.For)]
+    returned_lists = {x.id for rv in returned_values(inst) for x in (rv.elts if isinstance(rv, ast.Tuple) else [rv]) if isinstance(x, ast.Name)}
+    spec = inst.args.args[1].arg if len(inst.args.args) > 1 else None
+
+    def over_spec(it: ast.AST) -> bool:
+        if isinstance(it, ast.Call) and call_name(it) in ("enumerate", "list", "tuple", "iter") and it.args:
+            return over_spec(it.args[0])
+        if isinstance(it, ast.Name) and it.id != spec:
+            vals = assigned_value(inst, it.id)
+            return len(vals) == 1 and over_spec(vals[0])
+        return isinstance(it, ast.Name) and it.id == spec
+
+    ok = len(loops) == 1 and over_spec(loops[0].iter) and any(call_attr(c) == "append" and isinstance(c.func, ast.Attribute) and dotted_name(c.func.value) in returned_lists for c in calls_in(loops[0]))
+    R.check(ok, r_ids, ORCH, "SemantivaOrchestrator._instantiate_nodes", norm(loops[0]) if loops else "for node_def in pipeline_spec", "nodes are not instantiated by appending in spec order", inst.lineno)
 
 
 # ---------------------------------------------------------------------------
@@ -848,6 +1406,21 @@ def _enclosing_block(st: ast.AST) -> List[ast.stmt]:
 # ---------------------------------------------------------------------------
 
 
+def _mapping_keys(d: ast.AST) -> Set[str]:
+    """Keys a mapping expression certainly has: a dict display or ``dict(key=..., ...)``."""
+    if isinstance(d, ast.Dict):
+        return {k.value for k in d.keys if isinstance(k, ast.Constant)}
+    if isinstance(d, ast.Call) and call_name(d) == "dict" and not d.args:
+        return {k.arg for k in d.keywords if k.arg is not None}
+    return set()
+
+
+def _status_label(V: "_Vals", c: ast.Call) -> str:
+    s = kwarg(c, "status")
+    vals = V.resolve(s, V.uses(c)) if s is not None else []
+    return "/".join(sorted({str(getattr(v, "value", "?")) for v in vals})) or "?"
+
+
 def _load_schema(repo: Repo, name: str) -> dict:
     path = repo.root / SCHEMA_DIR / name
     try:
@@ -888,7 +1461,9 @@ def _record_literal(repo: Repo, qn: str) -> Tuple[Optional[str], Optional[ast.Di
     return None, None, nf
 
 
-def _schema_rules(repo: Repo, R: Report) -> None:
+def _schema_rules(repo: Repo, R: Report, X: Optional["_Exec"] = None) -> None:
+    X = X or _exec(repo)
+    V = X.V
     r = R.rule("C06-D2-writer-schema", "for each record type: the keys the driver writes unconditionally include the schema's required keys, constants match `const`, literal value sets are within `enum`, the registry maps every emitted record_type to an existing schema; no required key is removed on a fallback path", 20)
     registry = _load_schema(repo, "trace_registry_v1.json").get("records", {})
     fallback_pops: List[Tuple[str, ast.Call, str]] = []
@@ -970,24 +1545,27 @@ def _schema_rules(repo: Repo, R: Report) -> None:
                 for rk in spec["required"]:
                     R.check(rk in cfields, r, MODEL, "ContextDelta", f"ser.context_delta: required key {rk!r}", f"ContextDelta lacks mandatory field {rk!r}", cd.lineno)
             elif k == "timing":
-                # timing dict literals are built at the call sites in execute
-                ex = repo.func(ORCH, EXECUTE)
-                for c in calls_in(ex):
+                # the timing mapping handed over at the call sites in execute (a literal there, or a local bound to one)
+                for c in calls_in(X.fn):
                     if call_attr(c) == "_make_ser_record":
                         t = kwarg(c, "timing")
-                        lit_keys = {kk.value for kk in t.keys if isinstance(kk, ast.Constant)} if isinstance(t, ast.Dict) else set()
+                        at_c = V.uses(c)
+                        lits = [V.binding(a) for a in V.resolve(t, at_c)] if t is not None else []
+                        key_sets = [_mapping_keys(d) for d in lits]
+                        lit_keys = set.intersection(*key_sets) if key_sets else set()
                         for rk in spec["required"]:
-                            R.check(rk in lit_keys, r, ORCH, EXECUTE, f"ser.timing ({getattr(kwarg(c, 'status'), 'value', '?')}): required key {rk!r}", f"SER timing lacks schema-required key {rk!r}", c.lineno)
+                            R.check(rk in lit_keys, r, ORCH, EXECUTE, f"ser.timing ({_status_label(V, c)}): required key {rk!r}", f"SER timing lacks schema-required key {rk!r}", c.lineno)
     # status enum: literals passed as status= at call sites, after normalisation table
     enum = set(props.get("status", {}).get("enum", []))
-    ex = repo.func(ORCH, EXECUTE)
-    for c in calls_in(ex):
+    for c in calls_in(X.fn):
         if call_attr(c) == "_make_ser_record":
             s = kwarg(c, "status")
-            R.check(isinstance(s, ast.Constant) and s.value in enum, r, ORCH, EXECUTE, f"ser.status literal {getattr(s, 'value', '?')!r}", "SER status literal outside the schema enum", c.lineno)
+            vals = V.resolve(s, V.uses(c)) if s is not None else []
+            R.check(bool(vals) and all(isinstance(v, ast.Constant) and v.value in enum for v in vals), r, ORCH, EXECUTE, f"ser.status literal {_status_label(V, c)!r}", "SER status literal outside the schema enum", c.lineno)
     # parameter_sources enum
     ps_enum = set(props.get("processor", {}).get("properties", {}).get("parameter_sources", {}).get("additionalProperties", {}).get("enum", []))
-    rp = repo.func(ORCH, "SemantivaOrchestrator._resolve_params_with_sources")
+    repo.func(ORCH, "SemantivaOrchestrator._resolve_params_with_sources")
+    rp = nfunc(repo, ORCH, "SemantivaOrchestrator._resolve_params_with_sources", copyprop="all")
     # the provenance table by role: the second component of what the resolver returns
     src_names = {r.value.elts[1].id for r in walk_no_nested(rp) if isinstance(r, ast.Return) and isinstance(r.value, ast.Tuple) and len(r.value.elts) == 2 and isinstance(r.value.elts[1], ast.Name)}
     if not src_names:
@@ -1058,13 +1636,119 @@ def _json_safety_rules(repo: Repo, R: Report, fallback_pops) -> None:
     if n_leaves == 0:
         raise AnalysisError("variable_domain_signature: no returned dict literals recognised")
     bcs = repo.func(GRAPH, "build_canonical_spec")
-    dumps = [c for c in calls_in(bcs) if call_name(c) == "json.dumps"]
-    # the node list by role: the value stored under "nodes" in the returned canonical mapping
-    from ..engine import returned_values
-    node_lists = {v.id for rv in returned_values(bcs) for d in ast.walk(rv) if isinstance(d, ast.Dict) for k, v in zip(d.keys, d.values)
-                  if isinstance(k, ast.Constant) and k.value == "nodes" and isinstance(v, ast.Name)}
-    appended = [c for c in calls_in(bcs) if call_attr(c) == "append" and isinstance(c.func, ast.Attribute) and dotted_name(c.func.value) in node_lists]
-    ok = bool(dumps) and bool(appended) and all(d.lineno < appended[0].lineno for d in dumps[:1])
-    R.check(ok, r, GRAPH, "build_canonical_spec", "json.dumps(canon) precedes nodes.append(...)", "canonical nodes are no longer serialised when built: a non-JSON parameter is only discovered when the trace is written", bcs.lineno)
+    ok, why = _nodes_serialised_when_built(repo)
+    R.check(ok, r, GRAPH, "build_canonical_spec", "json.dumps(canon) precedes nodes.append(...)", "canonical nodes are no longer serialised when built: a non-JSON parameter is only discovered when the trace is written" + (f" ({why})" if why else ""), bcs.lineno)
     for qn, c, k in fallback_pops:
         R.ok(r, JSONL, qn, norm(c), f"fallback drops required key {k!r}; unreachable while the producers above hold", c.lineno)
+
+
+def _nodes_serialised_when_built(repo: Repo) -> Tuple[bool, str]:
+    """Every mapping that build_canonical_spec puts into the node list of the canonical spec it returns has been
+    handed to json.dumps (itself, or the mapping it is a copy of) on every path that leads to the append - so a
+    non-JSON parameter raises while the spec is built.  Decided on the normal form (private helpers inlined) with
+    must-pass on the CFG; an element produced by a call that could not be inlined is followed into the callee."""
+    from ..engine import returned_values
+    gmod = repo.module(GRAPH)
+    nf = nfunc(repo, GRAPH, "build_canonical_spec")
+    node_lists = {v.id for rv in returned_values(nf) for d in ast.walk(rv) if isinstance(d, ast.Dict) for k, v in zip(d.keys, d.values)
+                  if isinstance(k, ast.Constant) and k.value == "nodes" and isinstance(v, ast.Name)}
+    if not node_lists:
+        raise AnalysisError("build_canonical_spec: the node list of the returned canonical mapping was not found")
+    elements: List[Tuple[ast.AST, ast.AST]] = []  # (element expression, statement it is evaluated in)
+    for c in calls_in(nf):
+        if call_attr(c) == "append" and isinstance(c.func, ast.Attribute) and dotted_name(c.func.value) in node_lists and len(c.args) == 1:
+            elements.append((c.args[0], stmt_of(c)))
+    for nm in node_lists:
+        for v in assigned_value(nf, nm):
+            if isinstance(v, (ast.ListComp, ast.GeneratorExp)):
+                elements.append((v.elt, stmt_of(v)))
+            elif isinstance(v, ast.Call) and call_name(v) == "list" and len(v.args) == 1 and isinstance(v.args[0], (ast.ListComp, ast.GeneratorExp)):
+                elements.append((v.args[0].elt, stmt_of(v)))
+    if not elements:
+        return False, "nothing is appended to the node list"
+    for e, st in elements:
+        ok, why = _serialised_value(repo, gmod, nf, e, st, 0)
+        if not ok:
+            return False, why
+    return True, ""
+
+
+def _serialised_value(repo: Repo, mod, fn: ast.AST, e: ast.AST, st: ast.AST, depth: int) -> Tuple[bool, str]:
+    g = CFG(fn)
+    V = _Vals(g, fn)
+    uses = g.nodes_for(st)
+    if not uses:
+        raise AnalysisError(f"{getattr(fn, 'name', '?')}: `{norm(st)[:60]}` is not on the control-flow graph")
+    for alt in V.resolve(e, uses):
+        val = V.binding(alt)
+        if isinstance(val, ast.Call):
+            # a copy of a serialised mapping?
+            src = _copied_from(val)
+            if src is None:
+                # a helper that was not inlined (e.g. called from a comprehension): what it returns
+                try:
+                    targets = [t for t in repo.resolve_call(mod, val) if isinstance(t[1], ast.FunctionDef)]
+                except Exception:
+                    targets = []
+                if len(targets) != 1 or depth >= 2:
+                    return False, f"`{norm(val)[:60]}` is not a mapping that was serialised"
+                cmod, callee = targets[0]
+                cn = nfunc(repo, cmod.rel, qualname_of(callee))
+                rets = [r for r in walk_no_nested(cn) if isinstance(r, ast.Return) and r.value is not None]
+                if not rets:
+                    return False, f"`{callee.name}` returns nothing"
+                for r in rets:
+                    ok, why = _serialised_value(repo, cmod, cn, r.value, r, depth + 1)
+                    if not ok:
+                        return False, why
+                continue
+        # the objects whose serialisation vouches for this one: itself and what it was copied from
+        vouch: Set[str] = set()
+        cur, site = alt, uses
+        for _ in range(4):
+            if isinstance(cur, ast.Name):
+                vouch.add(cur.id)
+            b = V.binding(cur)
+            src = _copied_from(b) if b is not cur else None
+            if src is None:
+                break
+            site = V.binding_site(cur) or site
+            nxt = V.resolve(src, site)
+            if len(nxt) != 1:
+                break
+            cur = nxt[0]
+        if not vouch:
+            return False, f"`{norm(alt)[:60]}` is not a named mapping"
+        dump_nodes: Set[int] = set()
+        for n in g.nodes:
+            if n.ast is None or n.part is None:
+                continue
+            for c in calls_in(n.part) if n.kind != "stmt" else calls_in(n.ast):
+                if _is_json_dumps(repo, mod, c) and (c.args or c.keywords):
+                    a0 = c.args[0] if c.args else c.keywords[0].value
+                    if any(ast.dump(x) in {ast.dump(ast.Name(id=t, ctx=ast.Load())) for t in vouch} for x in V.resolve(a0, [n.id])):
+                        dump_nodes.add(n.id)
+        if not dump_nodes:
+            return False, f"`{norm(e)[:40]}` is never handed to json.dumps"
+        # must-pass: no way to the use that avoids the serialisation since the mapping came into being
+        root = cur.id if isinstance(cur, ast.Name) else None
+        births = {V.info[root][0].id} if root in V.info else set()
+        starts = [t for b_ in births for t, lab in g.succ[b_] if lab not in (EXC, BASE)] or [g.entry]
+        normal_only = g.reach([t for t in starts if t not in dump_nodes], blocked=dump_nodes, skip_labels={EXC, BASE})
+        if any(u in normal_only for u in uses):
+            return False, f"a path reaches `{norm(st)[:50]}` without serialising the node"
+    return True, ""
+
+
+def _copied_from(v: ast.AST) -> Optional[ast.AST]:
+    """``dict(x)``, ``x.copy()``, ``copy.copy(x)``, ``{**x, ...}``: the mapping the value is a shallow copy of."""
+    if isinstance(v, ast.Call):
+        if call_name(v) == "dict" and len(v.args) == 1:
+            return v.args[0]
+        if call_attr(v) == "copy" and isinstance(v.func, ast.Attribute) and not v.args:
+            return v.func.value
+        if call_name(v) in ("copy.copy", "copy.deepcopy") and len(v.args) == 1:
+            return v.args[0]
+    if isinstance(v, ast.Dict) and v.keys and v.keys[0] is None:
+        return v.values[0]
+    return None
